@@ -400,6 +400,10 @@ func (r *Run) ImplIsolated(line string, d time.Duration) string {
 	return ExecIsolated(line, d)
 }
 
+// Record notes a line that was executed on the implementation elsewhere (e.g. in a batch of lines served by
+// one child process) so that it appears in the replay file of the current case; follow with Diff.
+func (r *Run) Record(line string) { r.curLines = append(r.curLines, line) }
+
 // ModelOnly asks the model only.
 func (r *Run) ModelOnly(line string) string {
 	r.ModelOps++
